@@ -289,6 +289,10 @@ type config struct {
 	// Icpt: "lower" = the mode collection is configured with WithModeOption(resource.WithIDInterceptor(strings.ToLower))
 	// (icpt.go: own operation alphabet, own monitor with an oracle that compares ids up to spelling)
 	Icpt string `json:"id_interceptor,omitempty"`
+	// ActiveWritable: the active mode resource is configured with
+	// WithActiveModeOption(resource.WithWritablePaths(&traits.ElectricMode{}, paths...)) (resopts.go: the state
+	// clauses are evaluated by the plain-Go monitor, no model tie)
+	ActiveWritable []string `json:"active_writable,omitempty"`
 }
 
 // keyed is an initial record: a mode stored under a key of the caller's choosing.
@@ -317,7 +321,7 @@ func (c config) placeholderID() string {
 
 // line renders the configuration for the Lean driver.
 func (c config) line() string {
-	if c.Active == nil && len(c.Modes) == 0 && len(c.Recs) == 0 && c.Icpt == "" {
+	if c.Active == nil && len(c.Modes) == 0 && len(c.Recs) == 0 && c.Icpt == "" && len(c.ActiveWritable) == 0 {
 		return "reset"
 	}
 	a := mode{}
@@ -350,6 +354,9 @@ func (c config) line() string {
 		}
 		ms = strings.Join(xs, ";")
 	}
+	if len(c.ActiveWritable) > 0 {
+		return "awconfig p:" + strings.Join(c.ActiveWritable, ",") + " " + a.String() + " " + ms
+	}
 	return "config " + a.String() + " " + ms
 }
 
@@ -380,6 +387,9 @@ func newWorldCfg(c config) *world {
 	opts := []resource.Option{electricpb.WithClock(w.clk), resource.WithRNG(w.rng)}
 	if c.Icpt == "lower" {
 		opts = append(opts, electricpb.WithModeOption(resource.WithIDInterceptor(strings.ToLower)))
+	}
+	if len(c.ActiveWritable) > 0 {
+		opts = append(opts, electricpb.WithActiveModeOption(resource.WithWritablePaths(&traits.ElectricMode{}, c.ActiveWritable...)))
 	}
 	if len(c.Modes) > 0 {
 		ms := make([]*traits.ElectricMode, len(c.Modes))
